@@ -22,6 +22,7 @@ def handle (j : Json) : M Json := do
   | "dhar_strategy" => opDharStrategy j
   | "enhanced_dhar" => opEnhancedDhar j
   | "greedy" => opGreedy j
+  | "winnable_hist" => opWinnableHist j
   | "parking" => opParking j
   | "parking_gen" => opParkingGen j
   | "superstable_count" => opSuperstableCount j
